@@ -67,6 +67,13 @@ def main():
     if o.strip():
         print("/repo not clean, refusing")
         return 2
+    # evidence files must only ever record runs on the unchanged tree: keep them aside during the mutant runs
+    evdir = os.path.join(VERIF, "evidence")
+    saved = {}
+    for c in checks:
+        f = os.path.join(evdir, "%s.json" % c)
+        if os.path.exists(f):
+            saved[f] = open(f).read()
     try:
         rc, o = sh("git -C /repo apply %s" % patch)
         if rc != 0:
@@ -80,6 +87,8 @@ def main():
             print(" check", c, "->", "DETECTED" if results[c]["detected"] else "missed", lines[:2])
     finally:
         sh("git -C /repo checkout -- .")
+        for f, txt in saved.items():
+            open(f, "w").write(txt)
     meta = dict(id=sid, property=a.prop, confirmed=True if verified else None, verified=verified, ran=ran,
                 needs=open(os.path.join(dst, "notes.md")).read()[:1500] if os.path.exists(os.path.join(dst, "notes.md")) else "",
                 check_results=results, at=time.strftime("%Y-%m-%d %H:%M:%S"))
